@@ -933,7 +933,10 @@ class World:
             given = bytes.fromhex(self.ctx.model_in.get("_src", "")) if not self.sym else b""
             self._src = given + rest[len(given):]
         if start + n > len(self._src):
-            raise symex.HarnessError("concrete source content longer than 4096 bytes")
+            if start + n > 1 << 18:
+                raise symex.HarnessError("concrete source content longer than 256 KiB")
+            rnd = random.Random(0xB16 + self.ctx.seed)
+            self._src = self._src + rnd.randbytes((1 << 18) - len(self._src)).replace(b"\0", b"\1")
         return self._src[start:start + n]
 
     def alt_bytes(self, n):
